@@ -85,7 +85,7 @@ MustRun(t) ==
 \* no over-build: a script is started only for a target the reference says must run
 \* (forced `redo` builds exempt).  Checked on every step that extends `ran`.
 NoOverBuild ==
-    [][(ran' # ran /\ ran' # << >> /\ cmd.kind = "ifchange") => MustRun(ran'[Len(ran')])]_vars
+    [][(ran' # ran /\ ran' # << >> /\ cmd.kind = "ifchange" /\ ran'[Len(ran')] \notin gh.inner) => MustRun(ran'[Len(ran')])]_vars
 
 \* no under-build: after a successful command nothing in the closure must still run
 \* (redo-always targets excepted: they must run in every run)
@@ -98,7 +98,7 @@ NoUnderBuild ==
 \* at most once per run (C05, C07, C14)
 \* (a target named on the command line of a forced `redo` is rebuilt by that request
 \* even if a dependent already brought it up to date: one extra run, as in a serial build)
-Forced(t) == cmd.kind = "redo" /\ t \in {cmd.targs[i] : i \in 1..Len(cmd.targs)}
+Forced(t) == (cmd.kind = "redo" /\ t \in {cmd.targs[i] : i \in 1..Len(cmd.targs)}) \/ t \in gh.inner
 NoDupRun == \A t \in Plain :
                Cardinality({i \in 1..Len(ran) : ran[i] = t}) <= (IF Forced(t) THEN 2 ELSE 1)
 
